@@ -381,6 +381,9 @@ def extract_wiring(p, cls):
                                     rr = p.resolve_expr(cls.module, e.func)
                                     if isinstance(rr, tuple):
                                         w.ext["%s[%d]" % (slot, i)] = rr[1]
+                        elif isinstance(a, ast.Name) and isinstance(env.get(a.id), tuple) and env[a.id][0] == "locallist":
+                            for i, lay in enumerate(env[a.id][1]):
+                                w.slots["%s[%d]" % (slot, i)] = lay
                         elif isinstance(a, ast.ListComp) and isinstance(a.elt, ast.Call):
                             rr = p.resolve_expr(cls.module, a.elt.func)
                             if isinstance(rr, tuple):
@@ -420,7 +423,13 @@ def extract_wiring(p, cls):
             elif isinstance(st, ast.For):
                 _loop(st, env)
             elif isinstance(st, ast.Expr):
-                pass
+                # straight-line  lst.append(layer)  (a loop over range(2) written out, or by hand)
+                c = st.value
+                if isinstance(c, ast.Call) and isinstance(c.func, ast.Attribute) and c.func.attr == "append" and isinstance(c.func.value, ast.Name) and len(c.args) == 1 and isinstance(c.args[0], ast.Name):
+                    lst, item = c.func.value.id, env.get(c.args[0].id)
+                    cur = env.get(lst)
+                    if isinstance(item, tuple) and item[0] == "layer" and isinstance(cur, tuple) and cur[0] in ("blocklist", "locallist") and (cur[0] == "locallist" or cur[1] is None):
+                        env[lst] = ("locallist", (list(cur[1]) if cur[0] == "locallist" else []) + [item[2]])
 
     def _loop(st, env):
         """for _ in range(n): blocks.append(C(in_degrees=prev, ...)); prev = blocks[-1].degrees
@@ -862,30 +871,43 @@ def degree_rule(ctx):
 
 
 def tile_rule(ctx):
+    """DEG-TILE / UT-TILE on the shape-level evaluator (nfstatic/shapeeval.py): tile(x, n) evaluated
+    on arguments of rank 1..3 with distinct axes; every element must be followed by its n - 1 copies,
+    i.e. the result is one axis laid out (all original axes ..., copy index)."""
+    from ..axes import Mismatch, Unknown, show
+    from ..shapeeval import ShapeEval, Sz, RaisesExc
+
     p = ctx.p
     res = RuleResult("DEG-TILE", "torchutils.tile lays copies out element-major, copy-minor (output unit k has degree k // m + 1)")
     fn = p.find_function("nflows.utils.torchutils", "tile")
     params = [a for a, _ in fn.params()]
     x, n = params[0], params[1]
-    layout = {x: ["L"]}  # axes, each a list of factors major->minor
-    final = None
-    for st in fn.node.body:
-        if isinstance(st, ast.If) or (isinstance(st, ast.Expr) and isinstance(st.value, ast.Constant)):
+    n_ok = 0
+    for r in (1, 2, 3):
+        lay = tuple(((("a%d" % i, "A%d" % i, False),)) for i in range(r))
+        tag = "tile(x of rank %d, n)" % r
+        ev = ShapeEval({x: lay}, {n: Sz(["n"])}, p, fn.module)
+        try:
+            out = ev.run(fn)
+        except Unknown as u:
+            res.undecide("torchutils.tile", "%s: %s" % (tag, u))
             continue
-        if isinstance(st, ast.Return):
-            final = _layout(st.value, layout, n)
+        except Mismatch as m:
+            res.fail(Finding("DEG-TILE", fn.module, fn.qualname, fn.node, "%s: %s" % (tag, m.msg), construct="layout of tile"))
             break
-        if isinstance(st, ast.Assign) and len(st.targets) == 1 and isinstance(st.targets[0], ast.Name):
-            layout[st.targets[0].id] = _layout(st.value, layout, n)
+        except RaisesExc as ex:
+            res.fail(Finding("DEG-TILE", fn.module, fn.qualname, fn.node, "%s raises %s for a valid argument" % (tag, ex.exc), construct="layout of tile"))
+            break
+        got = tuple(tuple(a[0] for a in g) for g in out) if not (isinstance(out, tuple) and out and out[0] == "py") else None
+        want = (tuple("a%d" % i for i in range(r)) + ("rep[n]",),)
+        if got == want:
+            n_ok += 1
         else:
-            final = None
+            tiled = got is not None and len(got) == 1 and got[0][:1] == ("rep[n]",)
+            res.fail(Finding("DEG-TILE", fn.module, fn.qualname, fn.node, "%s produces the layout %s, not element-major / copy-minor %s%s: output unit k would not belong to feature k // n" % (tag, show(out) if got is not None else out, "[(" + "*".join(want[0]) + ")]", " (it tiles the whole vector: x0, x1, .., x0, x1, ..)" if tiled else ""), construct="layout of tile"))
             break
-    if final is None:
-        res.undecide("torchutils.tile", "layout could not be computed from the statement forms used")
-    elif final == [["L", "n"]]:
-        res.ok("tile: [L] -> [L (x) n] (element-major, copy-minor)")
-    else:
-        res.fail(Finding("DEG-TILE", fn.module, fn.qualname, fn.node, "tile produces layout %s, not element-major/copy-minor [L (x) n]: output unit k would not belong to feature k // m" % final, construct="layout of tile"))
+    if n_ok == 3:
+        res.ok("tile: [L] -> [L (x) n] (element-major, copy-minor) for ranks 1-3")
     return res
 
 
